@@ -207,6 +207,14 @@ Definition cmd_history (args : list sexp) : sexp :=
   | _ => A (-1)
   end.
 
+(* per-property command tables: property Cnn owns the codes 1000*nn .. 1000*nn+999 and defines
+   [disp_cnn : Z -> list sexp -> sexp] in Run/D_Cnn.v; add one line here per property. *)
+Definition disp_ext (code : Z) (args : list sexp) : sexp :=
+  let nn := code / 1000 in let sub := code mod 1000 in
+  match nn with
+  | _ => A (-2)
+  end.
+
 Definition run_cmd (c : sexp) : sexp :=
   match c with
   | L (A code :: args) =>
@@ -224,7 +232,7 @@ Definition run_cmd (c : sexp) : sexp :=
       | 190 => cmd_c19_convert args
       | 191 => cmd_c19_detwingle args
       | 192 => cmd_read_text args
-      | _ => A (-2)
+      | _ => disp_ext code args
       end
   | _ => A (-3)
   end.
